@@ -295,6 +295,38 @@ def concrete_helpers(repo, seed, n):
                 ok = ok and sorted(set(pv2.tolist())) == common2 and pv2.tolist() == sorted(pv2.tolist())
             if not ok:
                 return ev, dict(function="mat_intersect", D1=D1.tolist(), D2=D2.tolist(), keep=keep, pv1=pv1.tolist(), pv2=pv2.tolist())
+        # find_vals / find_subseq / find_rows / find_unique against their defining statements
+        mm = rng.randint(0, 5, size=(rng.randint(1, 4), rng.randint(1, 4))) + (0.5 if it % 3 == 0 else 0)
+        vv = rng.randint(0, 5, size=rng.randint(1, 4)) + (0.5 if it % 3 == 0 else 0)
+        fv = loc.find_vals(mm, vv if it % 2 else vv[0])
+        ev += 1
+        flat = [mm[i_, j_] for j_ in range(mm.shape[1]) for i_ in range(mm.shape[0])]          # column-major order
+        vlist = list(vv) if it % 2 else [vv[0]]
+        if fv.dtype != bool or fv.tolist() != [x_ in vlist for x_ in flat]:
+            return ev, dict(function="find_vals", m=mm.tolist(), v=vlist, got=fv.tolist())
+        sq = rng.randint(0, 3, size=rng.randint(1, 12))
+        sb = rng.randint(0, 3, size=rng.randint(1, 4))
+        fs_ = loc.find_subseq(sq, sb)
+        ev += 1
+        want_ = [i_ for i_ in range(len(sq) - len(sb) + 1) if list(sq[i_:i_ + len(sb)]) == list(sb)]
+        if list(fs_) != want_:
+            return ev, dict(function="find_subseq", seq=sq.tolist(), subseq=sb.tolist(), got=list(map(int, fs_)), want=want_)
+        mr = rng.randint(-2, 3, size=(rng.randint(1, 7), rng.randint(1, 4))).astype(float if it % 2 else int)
+        rw = mr[rng.randint(mr.shape[0])].copy() if rng.rand() < 0.7 else rng.randint(-2, 3, size=mr.shape[1])
+        fr = loc.find_rows(mr, rw)
+        ev += 1
+        if list(np.asarray(fr, bool)) != [bool(np.all(mr[i_] == rw)) for i_ in range(mr.shape[0])]:
+            return ev, dict(function="find_rows", matrix=mr.tolist(), row=np.asarray(rw).tolist(), got=np.asarray(fr).tolist())
+        if len(loc.find_rows(mr, np.hstack((rw, 1)))) not in (0,) and np.any(loc.find_rows(mr, np.hstack((rw, 1)))):
+            return ev, dict(function="find_rows", what="a row of another length is reported as found")
+        yu = np.cumsum(rng.choice([0.0, 0.0, 1.0, -2.0, 1e-9, 0.5], size=rng.randint(2, 12)))
+        tolu = [1e-6, 1e-3, 0.0][it % 3]
+        fu = loc.find_unique(yu, tolu)
+        ev += 1
+        dd = np.diff(yu)
+        wantu = [True] + [bool(abs(x_) > abs(tolu * abs(dd).max())) for x_ in dd]
+        if fu.tolist() != wantu:
+            return ev, dict(function="find_unique", y=yu.tolist(), tol=tolu, got=fu.tolist(), want=wantu)
         # list_intersect / merge_lists
         a = [int(x) for x in rng.permutation(7)[: rng.randint(0, 6)]]
         b = [int(x) for x in rng.permutation(7)[: rng.randint(0, 6)]]
@@ -381,8 +413,8 @@ def run(tier, seed):
             vs.append(V("%s%s::explored" % (tag, args), "proved" if npth > 0 else "failed", {"paths": npth}))
     run.add_verdicts(vs)
     run.notes.append({"paths per configuration": paths})
-    ev, cf = concrete_helpers(report.REPO, seed, 400 if tier == "quick" else 6000)
-    run.bounded.append(dict(name="find_duplicates, index2bool, flippv, mat_intersect (keep 0/1/2), list_intersect, merge_lists on random small inputs and "
+    ev, cf = report.guarded(run, concrete_helpers, report.REPO, seed, 400 if tier == "quick" else 6000)
+    run.bounded.append(dict(name="find_duplicates, index2bool, flippv, mat_intersect (keep 0/1/2, mixed element types), find_vals, find_subseq, find_rows, find_unique, list_intersect, merge_lists on random small inputs and "
                                  "expanddof over all 63 component codes + invalid digits, against their defining equations", evaluations=ev,
                             failures=0 if cf is None else 1, label="bounded (hash / byte-view based helpers cannot be executed symbolically)"))
     failed = [v for v in vs if v.status == "failed"]
